@@ -43,11 +43,26 @@ def ids_of(view: str, got: Any) -> Any:
     return out
 
 
-def run_prefix(n: int, hist: List[Dict[str, Any]], k: int, salt: int) -> Tuple[List[str], Dict[int, Any]]:
+def idx(i: int, dup: bool) -> int:
+    """Array index of match id i: its own (ids 1..n over $[*]) or, when the same node is visited more than once, shared by two ids."""
+    return (i - 1) // 2 if dup else i - 1
+
+
+def forward(view: str, ids: List[int], dup: bool) -> List[Any]:
+    """What a view has to list for these match ids."""
+    out: List[Any] = []
+    for i in ids:
+        j = idx(i, dup)
+        out.append(10 + j if view == "values" else f"$[{j}]" if view == "locations" else (f"$[{j}]", 10 + j) if view == "items" else f"/{j}")
+    return out
+
+
+def run_prefix(n: int, hist: List[Dict[str, Any]], k: int, salt: int, dup: bool = False) -> Tuple[List[str], Dict[int, Any]]:
     """Apply the first k actions; returns (discrepancies at action k, live queries)."""
     import jsonpath
 
-    qs: Dict[int, Any] = {1: jsonpath.query("$[*]", [10 + i for i in range(n)])}
+    text = "$[" + ",".join(str(idx(i, True)) for i in range(1, n + 1)) + "]" if dup and n else "$[*]"
+    qs: Dict[int, Any] = {1: jsonpath.query(text, [10 + i for i in range(n)])}
     bad: List[str] = []
     for j, h in enumerate(hist[:k]):
         last = j == k - 1
@@ -75,7 +90,15 @@ def run_prefix(n: int, hist: List[Dict[str, Any]], k: int, salt: int) -> Tuple[L
             else:
                 if h["op"] == "view":
                     got = list(getattr(q, name)())
-                    obs = {"k": "list", "ids": ids_of(name, got)}
+                    if dup:
+                        got = [str(x) if name == "pointers" else tuple(x) if name == "items" else x for x in got]
+                        obs = {"k": "list", "ids": exp["ids"] if got == forward(name, exp["ids"], True) else ["?", str(got)[:80]]}
+                    else:
+                        obs = {"k": "list", "ids": ids_of(name, got)}
+                elif dup:
+                    m = getattr(q, name)()
+                    obs = ({"k": "nothing", "ids": []} if m is None else
+                           {"k": "match", "ids": exp["ids"] if exp["ids"] and (m.obj, m.path) == (10 + idx(exp["ids"][0], True), f"$[{idx(exp['ids'][0], True)}]") else ["?", m.path]})
                 else:
                     m = getattr(q, name)()
                     obs = {"k": "nothing", "ids": []} if m is None else {"k": "match", "ids": [m.obj - 9]}
@@ -103,23 +126,27 @@ def replay(rec: Dict[str, Any]) -> List[Tuple[str, Dict[str, Any], str]]:
     # behaviour when the chain bound is larger; here the final state is compared after the full
     # chain and return values after each prefix.
     bad: List[str] = []
-    for k in range(1, len(hist) + 1):
-        b, qs = run_prefix(n, hist, k, salt)
-        if b:
-            bad = [f"step{k}:{x}" for x in b]
-            break
-    if not bad:
-        b, qs = run_prefix(n, hist, len(hist), salt)
-        for q, alive in enumerate(rec["live"], 1):
-            if not alive:
-                continue
-            if q not in qs:
-                bad.append(f"final:query-{q}-missing")
-                continue
-            got = [m.obj - 9 for m in qs[q]]
-            if got != rec["rem"][q - 1]:
-                bad.append(f"final:remaining-differs")
+    for dup in (False, True):      # once over distinct nodes, once over a match list that visits every node twice
+        tagd = "revisited-nodes:" if dup else ""
+        for k in range(1, len(hist) + 1):
+            b, qs = run_prefix(n, hist, k, salt, dup)
+            if b:
+                bad = [f"step{k}:{tagd}{x}" for x in b]
                 break
+        if not bad:
+            b, qs = run_prefix(n, hist, len(hist), salt, dup)
+            for q, alive in enumerate(rec["live"], 1):
+                if not alive:
+                    continue
+                if q not in qs:
+                    bad.append(f"final:{tagd}query-{q}-missing")
+                    continue
+                got = [m.obj for m in qs[q]] if dup else [m.obj - 9 for m in qs[q]]
+                if got != (forward("values", rec["rem"][q - 1], True) if dup else rec["rem"][q - 1]):
+                    bad.append(f"final:{tagd}remaining-differs")
+                    break
+        if bad:
+            break
     if not bad:
         return []
     ops = ">".join(h["op"] + ("-" if h["c"] < 0 else "") for h in hist)
